@@ -5,3 +5,6 @@ import "testing"
 func TestC07(t *testing.T) { C07.Run(t) }
 
 func TestReplay(t *testing.T) { runReplay(t) }
+func TestC02(t *testing.T) { C02.Run(t) }
+func TestC03(t *testing.T) { C03.Run(t) }
+func TestC08(t *testing.T) { C08.Run(t) }
